@@ -240,6 +240,9 @@ def located_part(report, rng, tier):
     fres = frontcheck.compare(report, {cid: cases[cid]["hcl"] for cid in order}, impl, "diag", limit=2 * len(FAULTS) + (120 if tier == "quick" else 6000))
     for k_, v_ in fres.items():
         stats["model_" + k_] = v_
+    sres = frontcheck.compare_stderr(report, {cid: cases[cid]["hcl"] for cid in order}, impl, "diag", limit=2 * len(FAULTS) + (120 if tier == "quick" else 6000))
+    for k_, v_ in sres.items():
+        stats["model_" + k_] = v_
     for cid, c in cases.items():
         blk = impl.get(cid, ["MISSING"])
         rep = {"case": c, "impl": [l[:400] for l in blk]}
